@@ -53,12 +53,12 @@ abbrev Heap := List StyleObj
 
 inductive RenderErr where
   /-- a Python exception out of the colour code -/
-  | py (e : PyErr)
+  | py (e : ColorErr)
   /-- a segment or operation names an object that does not exist (outside the modelled domain) -/
   | badRef
 deriving Repr, DecidableEq
 
-def liftPy {α : Type} : Except PyErr α → Except RenderErr α
+def liftPy {α : Type} : Except ColorErr α → Except RenderErr α
   | .ok a => .ok a
   | .error e => .error (.py e)
 
@@ -85,7 +85,7 @@ def attrCodes (attributes : Nat) : List Nat :=
 
 /-- `color.downgrade(color_system).get_ansi_codes(foreground)` for an optional colour. -/
 def colorCodes (cc : Cfg) (P : Palettes) (c : Option Color) (cs : ColorSystem) (fg : Bool) :
-    Except PyErr (List Nat) :=
+    Except ColorErr (List Nat) :=
   match c with
   | none => .ok []
   | some c => do
@@ -93,7 +93,7 @@ def colorCodes (cc : Cfg) (P : Palettes) (c : Option Color) (cs : ColorSystem) (
     getAnsiCodes d fg
 
 /-- The body of `_make_ansi_codes` when the cache is empty: the list `sgr`. -/
-def computeCodes (cc : Cfg) (P : Palettes) (s : Style) (cs : ColorSystem) : Except PyErr (List Nat) := do
+def computeCodes (cc : Cfg) (P : Palettes) (s : Style) (cs : ColorSystem) : Except ColorErr (List Nat) := do
   let attrs := attrCodes (s.attributes &&& s.setAttributes)
   let fg ← colorCodes cc P s.color cs true
   let bg ← colorCodes cc P s.bgcolor cs false
@@ -108,7 +108,7 @@ def cacheLookup (v : RVariant) (o : StyleObj) (cs : ColorSystem) : Option (List 
 /-- `Style._make_ansi_codes(color_system)`: the codes and the object afterwards.  An exception leaves
 `_ansi` untouched. -/
 def makeAnsiCodes (v : RVariant) (cc : Cfg) (P : Palettes) (o : StyleObj) (cs : ColorSystem) :
-    Except PyErr (List Nat × StyleObj) :=
+    Except ColorErr (List Nat × StyleObj) :=
   match cacheLookup v o cs with
   | some codes => .ok (codes, o)
   | none => do
@@ -122,7 +122,7 @@ def linkIdMask : List Char := ['i', 'd', '=', '*']
 
 /-- `Style.render(text, color_system=…, legacy_windows=…)` (style.py:609-633). -/
 def styleRender (v : RVariant) (cc : Cfg) (P : Palettes) (o : StyleObj) (text : List Char)
-    (cs : Option ColorSystem) (legacyWindows : Bool) : Except PyErr (List Tok × StyleObj) :=
+    (cs : Option ColorSystem) (legacyWindows : Bool) : Except ColorErr (List Tok × StyleObj) :=
   match cs with
   | none => .ok ([.text text], o)                       -- `color_system is None: return text`
   | some cs =>
@@ -175,7 +175,7 @@ def removeColorLoop (heap : Heap) :
             let (segs', tmp') ← removeColorLoop heap rest keys tmp
             .ok ({ seg with style := some k } :: segs', tmp')
           | none => do
-            let fresh : StyleObj := { style := Style.withoutColor Variant.fixed o.style, ansi := none }
+            let fresh : StyleObj := { style := Style.withoutColor StyleVariant.fixed o.style, ansi := none }
             let (segs', tmp') ← removeColorLoop heap rest (keys ++ [o.style]) (tmp ++ [fresh])
             .ok ({ seg with style := some keys.length } :: segs', tmp')
         else do
@@ -246,7 +246,7 @@ def stepOp (v : RVariant) (cc : Cfg) (P : Palettes) (heap : Heap) : Op → Excep
   | .updateLink i link =>
     match heap[i]? with
     | none => .error .badRef
-    | some o => .ok (heap ++ [{ style := Style.updateLink Variant.fixed o.style link, ansi := o.ansi }], none)
+    | some o => .ok (heap ++ [{ style := Style.updateLink StyleVariant.fixed o.style link, ansi := o.ansi }], none)
   | .render cfg segs => do
     let (toks, heap') ← renderBuffer v cc P cfg heap segs
     .ok (heap', some toks)
